@@ -325,6 +325,15 @@ def h_assemble_relation(I, job):
                 I.obligation(z3.Implies(valid, ai < 0), 'orientation', 'inner ring %d of outer ring %d is not clockwise' % (ii, oi))
                 for vi, v in enumerate(inner[:-1]):
                     I.obligation(z3.Implies(valid, z3.Or(z_on_ring(v, ring), z_inside(v, ring))), 'inner-outside-outer', 'vertex %d of inner ring %d lies outside the outer ring %d it is attached to' % (vi, ii, oi))
+        # an inner ring belongs to the innermost outer ring around it: no other outer ring may lie inside its outer ring and contain it
+        # (otherwise the inner ring's interior is covered by that other polygon and the region is not the even-odd fill)
+        for oi, (ring, inners) in enumerate(outers):
+            for oj, (other, _x) in enumerate(outers):
+                if oi == oj: continue
+                other_in_ring = z3.Or([z3.And(z_inside(w, ring), z3.Not(z_on_ring(w, ring))) for w in other[:-1]])
+                for ii, inner in enumerate(inners):
+                    inner_in_other = z3.Or([z3.And(z_inside(v, other), z3.Not(z_on_ring(v, other))) for v in inner[:-1]])
+                    I.obligation(z3.Implies(valid, z3.Not(z3.And(other_in_ring, inner_in_other))), 'inner-wrong-outer', 'inner ring %d is attached to outer ring %d although outer ring %d lies inside that ring and encloses the inner ring: its interior is covered by the other polygon (not the even-odd fill)' % (ii, oi, oj))
         I.obligation(z3.Implies(valid, got == exp_area), 'region', 'the area covered by the rings (outer minus inner) differs from the even-odd fill of the input cycles')
         if job.get('counts', True):
             I.obligation(z3.Implies(valid, exp_out == len(outers)), 'ring-count', '%d outer rings delivered; the even-odd nesting of the input cycles gives a different number' % len(outers))
@@ -400,6 +409,11 @@ def relation_templates(q):
     deep.update(p0=(('hx', 0), 60), p1=(('hx', 5), 60), p2=(('hx', 5), 70), p3=(('hx', 0), 70))
     T.append(dict(name='deep-nesting', pts=deep, cycles=[cyc('a'), cyc('b'), cyc('c'), cyc('d'), cyc('e'), cyc('p')], ways=[cyc('p'), cyc('e'), cyc('c'), cyc('a'), cyc('d'), cyc('b')],
                   syms=dict(hx=(3, 92)) if not q else dict(hx=(45, 58))))
+    # four nested triangles that share their leftmost node P: every ring has two segments starting in P, the rings crossed 'below' a segment all
+    # report the same y (that of P): the nearest enclosing outer ring has to be picked among ties
+    nest = dict(P=(0, 100), a1=(40, 80), a2=(40, 120), b1=(30, 90), b2=(30, 110), c1=(20, 95), c2=(20, 105), d1=(('hx', 0), 98), d2=(('hx', 0), 102))
+    T.append(dict(name='nested-shared-node', pts=nest, cycles=[['P', 'a1', 'a2', 'P'], ['P', 'b1', 'b2', 'P'], ['P', 'c1', 'c2', 'P'], ['P', 'd1', 'd2', 'P']],
+                  ways=[['P', 'c1', 'c2', 'P'], ['P', 'a1', 'a2', 'P'], ['P', 'd2', 'd1', 'P'], ['P', 'b1', 'b2', 'P']], free=['a1', 'b1', 'c1', 'd1'], syms=dict(hx=(5, 19)) if not q else dict(hx=(9, 12))))
     return T
 
 
@@ -437,8 +451,8 @@ def harnesses(tier):
         Harness('assemble_relation', 'assemble', h_assemble_relation, mode='INT', opaque_fp=True, jobs=relation_templates(q), reach=('end', 'assembled', 'rejected'), wall=1500,
                 tests=[dict(_job=0, dx=3, dy=2), dict(_job=0, dx=-3, dy=2), dict(_job=0, dx=7, dy=2), dict(_job=2, hx=10, hy=50), dict(_job=3, dx=5, dy=5), dict(_job=4, dx=2), dict(_job=4, dx=10), dict(_job=6, dx=7, dy=8), dict(_job=7, dx=-50)],
                 desc='the real area::Assembler on multipolygon relations built from templates (a ring cut into open ways, reversed ways, member order; a triangle moved over a grid through inside / touching / crossing / outside positions; '
-                     'two inner rings touching a concave outer ring in two split locations with the far vertices of one moving; island in hole in square; two separate squares; an outer corner moving; member ways that do not close; two rings touching in two nodes = four paths between two split locations, moved around the coordinate origin; five-fold nesting with a further inner ring above the innermost rings): '
+                     'two inner rings touching a concave outer ring in two split locations with the far vertices of one moving; island in hole in square; two separate squares; an outer corner moving; member ways that do not close; two rings touching in two nodes = four paths between two split locations, moved around the coordinate origin; five-fold nesting with a further inner ring above the innermost rings; four nested rings sharing their leftmost node): '
                      'whenever the cycles form a valid arrangement (exact reference: segments meet only in shared nodes) an area is produced whose rings are closed, simple, outer counter-clockwise / inner clockwise, every inner ring inside the outer ring it is attached to, '
                      'ring counts equal to the even-odd nesting depth count and outer-minus-inner area equal to the even-odd fill; arrangements with properly crossing segments and open rings give no rings and a report',
-                bounds='9 templates with 1-2 symbolic translation / vertex variables over the stated grids (<= 17 x 13 positions); <= 24 segments; floating point as exact rationals (find_enclosing_ring) / inside the proved range (intersection point); tags, roles and the old-style tag logic are not varied'),
+                bounds='10 templates with 1-2 symbolic translation / vertex variables over the stated grids (<= 17 x 13 positions); <= 24 segments; floating point as exact rationals (find_enclosing_ring) / inside the proved range (intersection point); tags, roles and the old-style tag logic are not varied'),
     ]
